@@ -23,6 +23,7 @@
               [ C      0   ] [ l ] = [ 0     ]
         stated properties:  C x = 0 exactly,  A^T (A x - b)  orthogonal to null(C)
         (equivalently: in the row space of C, i.e. every (p+1)-minor of [C; g] vanishes).
+        Relation family (row scaling): x(A, b, diag(d) C) = x(A, b, C) for every non-zero d.
 
    This module has no variables; LsqCheck.tla turns it into a model.                *)
 EXTENDS Integers, Sequences, FiniteSets, TLC
@@ -163,6 +164,14 @@ ConMinimiser(A, b, C, sol) ==
   IN \A z \in [1..Cols(A) -> {-1, 0, 1}] :
         (MatVec(C, z) = ZeroV(Rows(C)) /\ \E k \in 1..Cols(A) : z[k] # 0) =>
             ConJ(A, b, AddV(sol.num, ScaleV(sol.den, z)), sol.den) > J0
+
+\* Row scaling: multiplying constraint row i by a non-zero scalar d[i] changes neither {x : C x = 0} nor the objective,
+\* hence not the constrained minimiser:  x(A, b, diag(d) C) = x(A, b, C)   (equality of rationals, cross-multiplied)
+ScaleRows(C, d) == [i \in 1..Rows(C) |-> ScaleV(d[i], C[i])]
+SameRational(s1, s2) == /\ s1.den # 0 /\ s2.den # 0
+                        /\ ScaleV(s2.den, s1.num) = ScaleV(s1.den, s2.num)
+RowScaleInvariant(A, b, C, d) == LET s1 == ConSolve(A, b, C)  s2 == ConSolve(A, b, ScaleRows(C, d))
+                                 IN SameRational([num |-> s1.num, den |-> s1.den], [num |-> s2.num, den |-> s2.den])
 
 HasZeroColumn(A) == \E j \in 1..Cols(A) : \A i \in 1..Rows(A) : A[i][j] = 0
 =============================================================================
